@@ -414,7 +414,9 @@ class DULServiceProvider(Thread):
 
             # Check the ARTIM timer first so its event is placed on the queue
             #   ahead of any other events this loop
-            if self.artim_timer.expired:
+            #   A timer that has been stopped cannot expire any more, even if
+            #   it ran out just before the action that stopped it was performed
+            if self.artim_timer.expired and self.artim_timer.is_running:
                 self.event_queue.put("Evt18")
 
             # Check the connection for incoming data
